@@ -12,7 +12,9 @@ Proof. intros FA I L E. apply (df_rename_outcome c g m s s' r FA I L E). Qed.
 Lemma edf_move_keeps c f g n s s' r g0 n0 :
   fix_a c = true -> Inv s -> linked s g0 -> d_find (py_cols s g0) n0 = Some f -> linked s g ->
   edf_move c f g n s = (s', r) ->
-  Inv s' /\ (forall x, r = Ok x -> g0 <> g -> py_valid s' f = false).
+  Inv s' /\ (forall x, r = Ok x -> g0 <> g ->
+            py_valid s' f = false /\ d_find (py_cols s' g) n = Some x /\ py_valid s' x = true /\
+            fld_type s' x = fld_type s f /\ fld_data s' x = fld_data s f).
 Proof.
   intros FA I L0 H0 L E. unfold edf_move in E. unfold bindM at 1 in E.
   destruct (field_dataframe f s) as [sx r0] eqn:E0. pose proof (field_dataframe_pure _ _ _ _ E0) as ->.
@@ -34,7 +36,7 @@ Proof.
     destruct (edf_copy_keeps c f g n s s1 r1 I L E1) as (I1 & HOk & HF).
     destruct r1 as [nf|x|e|]; try (inversion E; subst; split; [exact I1 | intros ? X; discriminate X]).
     destruct (HOk nf eq_refl) as (-> & Hn & _).
-    destruct (copied_frame c s f g n) as (F1 & F2 & F3 & F4 & F5 & F6 & F7 & F8 & F9 & _).
+    destruct (copied_frame c s f g n) as (F1 & F2 & F3 & F4 & F5 & F6 & F7 & F8 & F9 & _ & F11 & F12).
     set (s1 := copied c s f g n) in *.
     assert (NEf : f <> next_id s) by lia.
     destruct (F9 f NEf) as (V1 & FD1 & _).
@@ -56,7 +58,7 @@ Proof.
     subst cur. unfold bindM at 1 in E.
     destruct (df_drop g0 n0 s1) as [s2 r3] eqn:E3. pose proof (df_drop_keeps _ _ _ _ _ I1 L0' E3) as I2.
     destruct r3 as [[]|x|e|]; try (inversion E; subst; split; [exact I2 | intros ? X; discriminate X]).
-    destruct (df_drop_ok_frame _ _ _ _ E3) as (G1 & G2 & G3 & G4 & G5).
+    destruct (df_drop_ok_frame _ _ _ _ E3) as (G1 & G2 & G3 & G4 & G5 & G6 & G7).
     unfold bindM at 1 in E. unfold modify at 1 in E.
     assert (I3 : Inv (set_py_valid s2 (fupd (py_valid s2) f false))).
     { apply invalidate_Inv; [exact I2|]. intros x m Lx Hx.
@@ -67,8 +69,15 @@ Proof.
         destruct (ib_uniq _ (proj2 I1) g0 g0 m n0 f L0' L0' Hx H0') as [_ X]. contradiction.
       - rewrite (G4 x NEx) in Hx. destruct (ib_uniq _ (proj2 I1) x g0 m n0 f Lx1 L0' Hx H0') as [X _]. contradiction. }
     unfold df_getitem in E.
-    destruct (d_find (py_cols (set_py_valid s2 (fupd (py_valid s2) f false)) g) n); inversion E; subst.
-    + split; [exact I3|]. intros _ _ _. cbn. apply fupd_same.
+    destruct (d_find (py_cols (set_py_valid s2 (fupd (py_valid s2) f false)) g) n) as [nf2|] eqn:Fn; inversion E; subst.
+    + split; [exact I3|]. intros x X _. inversion X; subst x. split; [cbn; apply fupd_same|]. split; [exact Fn|].
+      split.
+      { assert (L3 : linked (set_py_valid s2 (fupd (py_valid s2) f false)) g).
+        { destruct L as (li & ln & LI). exists li, ln. cbn [h5_root set_py_valid]. rewrite G1, F2. exact LI. }
+        apply (dk_flds _ _ (ib_df _ (proj2 I3) g L3) n nf2 Fn). }
+      cbn [py_cols set_py_valid fld_type fld_data] in *.
+      rewrite (G4 g (not_eq_sym NE0)), F7, d_find_set, name_eqb_refl in Fn. inversion Fn; subst nf2.
+      rewrite G6, G7, F11, (F12 NEf). split; reflexivity.
     + split; [exact I3|]. intros ? X; discriminate X.
 Qed.
 
@@ -139,4 +148,60 @@ Proof.
   { induction ops0 as [|p t IH]; intros s I; cbn [run_ops]; [exact I|].
     apply IH. destruct (step c p s) as [s' r] eqn:E. cbn [fst]. eapply step_Inv; eassumption. }
   apply G. apply init_Inv.
+Qed.
+
+(* ------------------------------------------------------------------ rename: all or nothing; handles follow *)
+Theorem rename_step_spec c i d m s s' r :
+  fix_a c = true -> Inv s -> step c (ORename i d m) s = (s', r) ->
+  Inv s' /\ (is_ok r = false -> s' = s) /\
+  (is_ok r = true -> exists g, d_find (py_dfs s i) d = Some g /\
+     py_cols s' g = renamed m (py_cols s g) /\ same_map (py_cols s' g) (h5_grp s' g) /\
+     (forall x, x <> g -> py_cols s' x = py_cols s x /\ h5_grp s' x = h5_grp s x) /\
+     (forall j, py_dfs s' j = py_dfs s j) /\ (forall j, h5_root s' j = h5_root s j) /\
+     (forall x, py_name s' x = py_name s x) /\ (forall f, py_valid s' f = py_valid s f) /\
+     (forall f, fld_type s' f = fld_type s f) /\ (forall f, fld_data s' f = fld_data s f)).
+Proof.
+  intros FA I E. cbn [step] in E. unfold bindM at 1 in E. unfold ds_getitem at 1 in E.
+  destruct (d_find (py_dfs s i) d) as [g|] eqn:Hd.
+  - pose proof (catalogued_linked _ _ _ _ (proj1 I) Hd) as L.
+    destruct (df_rename_outcome c g m s s' r FA I L E) as (I' & A & B). split; [exact I'|]. split; [exact A|].
+    intros H. exists g. split; [reflexivity | apply B; exact H].
+  - inversion E; subst. split; [exact I|]. split; [reflexivity | cbn; discriminate].
+Qed.
+
+(* a field handle held across a successful rename is, afterwards, the column `subst m k` of the frame *)
+Corollary handles_follow_rename c i d m s s' g k f :
+  fix_a c = true -> Inv s -> step c (ORename i d m) s = (s', Ok tt) ->
+  d_find (py_dfs s i) d = Some g -> d_find (py_cols s g) k = Some f ->
+  d_find (py_cols s' g) (subst m k) = Some f /\ d_find (h5_grp s' g) (subst m k) = Some f /\
+  py_valid s' f = py_valid s f /\ fld_type s' f = fld_type s f /\ fld_data s' f = fld_data s f.
+Proof.
+  intros FA I E Hd Hf. destruct (rename_step_spec c i d m s s' (Ok tt) FA I E) as (I' & _ & B).
+  destruct (B eq_refl) as (g' & Hd' & C1 & C2 & _ & C5 & C6 & _ & C8 & C9 & C10).
+  assert (g' = g) by congruence. subst g'.
+  assert (L' : linked s' g).
+  { apply (linked_ext s s' C6). eapply catalogued_linked; [apply I | exact Hd]. }
+  pose proof (dk_nd_py _ _ (ib_df _ (proj2 I') g L')) as ND. rewrite C1, renamed_keys in ND.
+  assert (X : d_find (py_cols s' g) (subst m k) = Some f).
+  { rewrite C1. apply In_d_find; [rewrite renamed_keys; exact ND|].
+    unfold renamed. apply in_map_iff. exists (k, f). split; [reflexivity | apply d_find_In; exact Hf]. }
+  split; [exact X|]. split; [rewrite <- (C2 (subst m k)); exact X|]. auto.
+Qed.
+
+(* handles to moved-away fields report themselves invalid; the field arrives with its type and data *)
+Theorem move_step_invalid c i d n j d' n' s s' sg f g :
+  fix_a c = true -> Inv s -> step c (OFMove i d n j d' n') s = (s', Ok tt) ->
+  d_find (py_dfs s i) d = Some sg -> d_find (py_cols s sg) n = Some f -> d_find (py_dfs s j) d' = Some g -> sg <> g ->
+  py_valid s' f = false /\
+  exists nf, d_find (py_cols s' g) n' = Some nf /\ py_valid s' nf = true /\
+             fld_type s' nf = fld_type s f /\ fld_data s' nf = fld_data s f.
+Proof.
+  intros FA I E Hd Hf Hd' NE. pose proof (proj1 I) as IA. cbn [step] in E.
+  unfold bindM at 1 in E. unfold ds_getitem at 1 in E. rewrite Hd in E.
+  unfold bindM at 1 in E. unfold df_getitem at 1 in E. rewrite Hf in E.
+  unfold bindM at 1 in E. unfold ds_getitem at 1 in E. rewrite Hd' in E.
+  unfold bindM in E. destruct (edf_move c f g n' s) as [s1 r1] eqn:E1.
+  destruct (edf_move_keeps c f g n' s s1 r1 sg n FA I (catalogued_linked _ _ _ _ IA Hd) Hf (catalogued_linked _ _ _ _ IA Hd') E1) as (I1 & H).
+  destruct r1 as [nf|x|e|]; inversion E; subst.
+  destruct (H nf eq_refl NE) as (V & Fn & V2 & T & D). split; [exact V|]. exists nf. auto.
 Qed.
